@@ -170,3 +170,10 @@ decorate_for_target! {
         })
     }
 }
+
+/// Verification hook: base address and length of the current thread's input buffer, so that a
+/// harness can check that every reported string lies inside the input without dereferencing it.
+#[cfg(shopify_function_verif)]
+pub fn verif_input_range() -> (usize, usize) {
+    Context::with(|context| (context.input_bytes.as_ptr() as usize, context.input_bytes.len()))
+}
